@@ -13,19 +13,24 @@ ACTION_TYPES = {'move', 'flag', 'flags', 'discard', 'label', 'reject', 'exec', '
 
 
 class Case:
-    __slots__ = ('conf', 'pats', 'msg', 'sub', 'name', 'dry', 'tz', 'impl', 'path', 'ast', 'model', 'spec', 'note')
+    __slots__ = ('conf', 'pats', 'msg', 'sub', 'name', 'dry', 'tz', 'impl', 'path', 'ast', 'model', 'spec', 'note', 'mtime', 'times')
 
-    def __init__(self, conf, pats, msg, sub='new', name='1.host', dry='0', tz=None):
+    def __init__(self, conf, pats, msg, sub='new', name='1.host', dry='0', tz=None, mtime=None):
         if '/' not in sub:
             sub = 'md/' + sub
         self.conf, self.pats, self.msg, self.sub, self.name, self.dry, self.tz = conf, pats, msg, sub, name, dry, tz
         self.impl = self.path = self.ast = self.model = self.spec = self.note = None
+        # mtime: the message file gets this modification time (seconds) before it is parsed; the harness then reports the
+        # three stat times the evaluator saw (`times`), which are handed to the model as its file-time oracle
+        self.mtime, self.times = mtime, None
 
     def request(self):
         a = ['eval', vlib.hexs(self.conf.encode('latin-1')), vlib.hexs(self.msg), vlib.hexs(self.sub.encode()),
              vlib.hexs(self.name.encode()), vlib.hexs(self.dry.encode()), vlib.hexs(str(NOW).encode())]
-        if self.tz:
-            a.append(vlib.hexs(self.tz.encode()))
+        if self.tz or self.mtime is not None:
+            a.append(vlib.hexs((self.tz or 'UTC').encode()))
+        if self.mtime is not None:
+            a.append(vlib.hexs(str(self.mtime).encode()))
         return ' '.join(a)
 
     def readable(self):
@@ -68,6 +73,10 @@ def run_cases(h, env, cases, want_spec=True):
         toks = o.split(' ')
         c.path = toks[1]
         a, r = toks.index('AST'), toks.index('RES')
+        if 'TIMES' in toks[r:]:
+            t = len(toks) - 1 - toks[::-1].index('TIMES')
+            c.times = toks[t + 1:t + 7]
+            toks = toks[:t]
         c.impl = ' '.join(toks[r + 1:])
         ast = fill_patterns(toks[a + 1:r], c.pats)
         if ast is None:
@@ -75,6 +84,10 @@ def run_cases(h, env, cases, want_spec=True):
             continue
         c.ast = ast
         tail = [vlib.hexs(ast.encode()), vlib.hexs(c.msg), c.path, vlib.hexs(c.dry.encode()), vlib.hexs(str(NOW).encode())]
+        if c.times and len(c.times) == 6:
+            # file-time oracle of the model: \x01T<atime> <mtime> <ctime>\x01<fmt a>\x01<fmt m>\x01<fmt c>  (passed in the place of a directory)
+            blob = b'\x01T' + ' '.join(c.times[:3]).encode() + b''.join(b'\x01' + vlib.unhex(x) for x in c.times[3:])
+            tail.append(vlib.hexs(blob))
         mreq.append('M eval ' + ' '.join(tail))
         sreq.append('S eval ' + ' '.join(tail))
         idx.append(c)
